@@ -323,6 +323,8 @@ class Interp(object):
             # (1 << trailing_zeros(x)) != 0  <=>  x != 0
             return self.nonzero_bit(src)
         live = [b for b in bv.bits if b is not C0]
+        if any(b is C1 for b in live):
+            return C1
         if len(live) == 1:
             return live[0]
         allsmall = all(b.kind in 'sc' for b in live)
@@ -523,6 +525,10 @@ class Interp(object):
                 return self.term_add(a, sgn * b.val())
             if isinstance(b, Term) and isinstance(a, BV) and a.known() and sgn == 1:
                 return self.term_add(b, a.val())
+            if isinstance(a, BV) and isinstance(b, BV) and a.w == b.w and not a.signed:
+                r = self.ripple(a, b, sgn == -1)
+                if r is not None:
+                    return r
             w = getattr(a, 'w', 64)
             ra, rb = self.rng(a), self.rng(b)
             if ra and rb:
@@ -546,6 +552,22 @@ class Interp(object):
         if op == 'Offset':
             return Top('ptr offset')
         return Top('binop %s' % op)
+
+    def ripple(self, a, b, sub):
+        """Bitwise a + b / a - b on partially known vectors, as long as the carry chain stays constant (e.g. x - 1 when
+        the lowest set bit of x is known); None otherwise."""
+        c = C0
+        out = []
+        for x, y in zip(a.bits, b.bits):
+            xy = B.bxor(x, y)
+            out.append(B.bxor(xy, c))
+            if sub:
+                c = B.bor(B.band(B.bnot(x), y), B.band(B.bnot(xy), c))
+            else:
+                c = B.bor(B.band(x, y), B.band(xy, c))
+            if c is not C0 and c is not C1:
+                return None
+        return BV(out)
 
     def term_add(self, t, k):
         if k == 0:
